@@ -29,6 +29,9 @@ from harness.translate import modulefs
 PROBE = str(VERIF / "harness" / "checks" / "c03_probe.py")
 
 
+RETAINED = []      # (label, numerical model, args of the first F call, its value): re-evaluated after every other model has been built
+
+
 def inline_values(builder, tweak=None, make_hvp=True):
     """reference values from the in-process backends (sparse and dense)"""
     from Solverz import made_numerical
@@ -59,6 +62,8 @@ def inline_values(builder, tweak=None, make_hvp=True):
             with warnings.catch_warnings():
                 warnings.simplefilter("ignore")
                 d[f"F{i}"] = np.asarray(nd.F(*args), dtype=float)
+                if i == 1:
+                    RETAINED.append((f"{getattr(builder, '__name__', 'model')}/{'sparse' if sp else 'dense'}", nd, args, d[f"F{i}"].copy()))
                 J = nd.J(*args)
                 d[f"J{i}"] = J.toarray() if hasattr(J, "toarray") else np.asarray(J)
                 if hasattr(nd, "HVP") and sp:
@@ -146,7 +151,7 @@ def run(rep, tier, seed):
     zoo = models.zoo()
     names = list(zoo)
     if tier == "quick":
-        keep = ["ae_basic", "dae_ts", "fdae_heat", "dae_ts_index", "ae_consts", "ae_trigger_smooth"]
+        keep = ["ae_basic", "dae_ts", "fdae_heat", "dae_ts_index", "ae_consts", "ae_trigger", "ae_trigger_smooth"]
         extra = [n for n in names if n not in keep]
         names = keep + list(rng.permutation(extra)[:1])
     tmp = tempfile.mkdtemp(prefix="c03_")
@@ -203,6 +208,19 @@ def run(rep, tier, seed):
             if data is not None:
                 for modname, ref in refsj.items():
                     ncmp += compare("render(numba)->import", modname, ref, data, meta, fails, dict(model=modname, phase="jit"))
+        # in-process models built earlier must not have been changed by the models built after them (shared name spaces)
+        for label, nd, args, F1 in RETAINED:
+            ncmp += 1
+            try:
+                with warnings.catch_warnings():
+                    warnings.simplefilter("ignore")
+                    again = np.asarray(nd.F(*args), dtype=float)
+            except Exception as ex:  # noqa
+                fails.append((dict(model=label, phase="retained"), f"in-process model {label}: F raised {type(ex).__name__} after other models were built")); continue
+            if again.shape != F1.shape or not np.array_equal(again, F1, equal_nan=True):
+                fails.append((dict(model=label, phase="retained"), f"in-process model {label}: F at the same point changed after other in-process models were "
+                                                                    f"built ({F1[:3]} -> {again[:3]})"))
+        del RETAINED[:]
     finally:
         shutil.rmtree(tmp, ignore_errors=True)
         shutil.rmtree(other_cwd, ignore_errors=True)
